@@ -150,7 +150,9 @@ fn interpret(start: Sgr, bytes: &[u8]) -> Result<Sgr, String> {
     let mut sgr = start;
     for ev in vt.feed(bytes) {
         match ev {
-            Ev::Csi { params, inter, ignore: false, byte: b'm' } if inter.is_empty() => sgr.apply(&params),
+            Ev::Csi { params, inter, ignore: false, byte: b'm' } if inter.is_empty() => {
+                sgr.apply(&params);
+            }
             other => return Err(format!("the VT model sees {other:?}, not an SGR sequence (rendered {})", show(bytes))),
         }
     }
